@@ -10,6 +10,20 @@ ASPECT = os.environ.get('VERIF_ASPECT', '')    # the property a multi-property h
 REGISTRY = {}      # (module, function name) -> metadata
 
 
+def known_skip(tag):
+    """True when /verif/known_findings.json lists an OPEN finding with this skip tag (and skipping is not switched off):
+    the harness then treats that specific, already recorded failure as not its business and keeps exploring the rest."""
+    if os.environ.get('VERIF_NOSKIP') == '1':
+        return False
+    try:
+        import json
+        with open('/verif/known_findings.json') as f:
+            data = json.load(f)
+    except Exception:
+        return False
+    return any(k.get('status', 'open') == 'open' and k.get('skip') == tag for k in data.get('findings', []))
+
+
 class Skip(Exception):
     """input lies outside the harness precondition (bound exceeded / not a valid value)"""
 
